@@ -199,11 +199,45 @@ class Auto:
                 return self._assert(site)
             if site.kind == "std":
                 return self._std(site)
+            if site.kind == "op":
+                return self._op(site)
         except (KeyError, IndexError, TypeError) as e:  # analysis gap: stay undischarged
             return None
         return None
 
     # ------------------------------------------------------------------
+    # documented-panic constructors: the argument interval that cannot panic
+    OP_ARGS = {
+        "signed_duration::SignedDuration::new": {1: (-999_999_999, 999_999_999)},      # no carry into the seconds
+        "span::Span::years": {1: (-19_998, 19_998)},
+        "span::Span::months": {1: (-239_976, 239_976)},
+        "span::Span::weeks": {1: (-1_043_497, 1_043_497)},
+        "span::Span::days": {1: (-7_304_484, 7_304_484)},
+        "span::Span::hours": {1: (-175_307_616, 175_307_616)},
+        "span::Span::minutes": {1: (-10_518_456_960, 10_518_456_960)},
+        "span::Span::seconds": {1: (-631_107_417_600, 631_107_417_600)},
+        "span::Span::milliseconds": {1: (-631_107_417_600_000, 631_107_417_600_000)},
+        "span::Span::microseconds": {1: (-631_107_417_600_000_000, 631_107_417_600_000_000)},
+        "span::Span::nanoseconds": {1: (-9_223_372_036_854_775_807, 9_223_372_036_854_775_807)},
+    }
+
+    def _op(self, site):
+        t = site.term
+        want = self.OP_ARGS.get(t.get("path"))
+        if not want:
+            return None
+        an = self.analyzer(site.fn)
+        st = an.state_before_term(site.bb)
+        if st is None:
+            return None
+        for idx, (lo, hi) in want.items():
+            if idx >= len(t["args"]):
+                return None
+            v = an.read_op(st, t["args"][idx])
+            if v.iv is None or v.iv[0] < lo or v.iv[1] > hi:
+                return None
+        return "OP-ARG"
+
     def _assert(self, site):
         t = site.term
         an = self.analyzer(site.fn)
